@@ -485,7 +485,7 @@ THEOREMS["C01"] = [
     "Pest.run_gen", "Pest.step_gen", "Pest.rule_gen", "Pest.popAllLoop_full", "Pest.srel_restore", "Pest.srel_ok",
     "Pest.run_good", "Pest.Tables.expression_classes_covered", "Pest.Tables.special_builtins_match",
 ]
-THEOREMS["C02"] = ["Pest.C02." + t for t in (
+THEOREMS["C02_pending"] = ["Pest.C02." + t for t in (
     "wf_of_check optimizer_sound optimized_skip_total optimizer_sound_expr optimizer_sound_noskip parse_eq_run opt_interp_agrees "
     "opt_interp_vs_plain optgen_agrees").split()] + [
     "Pest.OptS.optimize_sound", "Pest.OptS.wfCheck_sound", "Pest.Tables.default_passes_match", "Pest.L0.run_mono"]
@@ -997,8 +997,12 @@ def _worker(job):
                     inputs3 = small_inputs("".join(chars) or "a", 4 if tier == "thorough" else 3) + ["ab1", "abc", "aBc", "1a", "\n", "\r\n", "ba b"]
                 signal.alarm(120)
                 try:
+                    starts_ = [n for n in ("r", "r2", "r3", "r4", "SKIP") if n in rules]
+                    ins_ = inputs3
+                    if kind == "skip" and len(starts_) > 1:
+                        ins_ = inputs3[: len(inputs3) // 2] + small_inputs("abc ", 4)
                     eval_grammar(prop, rng, "opt-template:" + kind, gtext, rules, choose_passes(rng, rng.randrange(3)),
-                                 [("r", t, (0 if prop != "C16" else rng.randint(0, len(t)))) for t in inputs3], out)
+                                 [(st_, t, (0 if prop != "C16" else rng.randint(0, len(t)))) for st_ in starts_ for t in ins_], out)
                     out["stats"]["opt_template_grammars"] += 1
                 except Timeout:
                     out["timeouts"].append({"group": "opt-template", "grammar": gtext, "passes": list(PASS_NAMES)})
